@@ -14,7 +14,8 @@ What is proved below, for all streams and both parser modes, without size bounds
   * of the boundary agreement: the head boundary is the first empty line (`head_ends_at_first_empty_line`), a
     Content-Length body has exactly the length that every Content-Length value of the header block denotes
     (`content_length_body_sound`), a body in the chunked grammar is decoded exactly and the next message starts right
-    after it (`chunked_body_exact`).
+    after it (`chunked_body_exact`); completeness for strictly framed Content-Length requests, composed from the
+    C21/C22/C25/C26 theorems (`strict_rfc9112_message_delimited_exactly`).
 The statement is *false* of the code in three regions, each with a proved counterexample:
 `te_and_cl_keeps_reading_counterexample`, `vt_padded_chunked_accepted_counterexample`,
 `explicit_http09_post_accepted_counterexample` (known findings, see notes/built/C03.md).
@@ -22,6 +23,7 @@ The statement is *false* of the code in three regions, each with a proved counte
 import SquidModel.Smuggle.LoopLemmas
 import SquidModel.Smuggle.HeadShape
 import SquidModel.Smuggle.ChunkExact
+import SquidModel.Smuggle.StrictRfc
 
 namespace SquidModel.C03
 open SquidModel SquidModel.Header SquidModel.Smuggle
@@ -235,6 +237,32 @@ theorem chunked_body_exact (cfg : Smuggle.Cfg) (url : Bytes → Bytes → Option
   rw [h]
   simp only [bodyKind, hte, if_true, hne, Bool.false_eq_true, if_false, hv, ho, hi]
 
+/-- **Completeness: a strictly framed Content-Length request is handed on as exactly that message** (strict parser;
+through C22 `strict_rfc9112_accepted`, C25 `accepted_fields_exact`, C26 `unambiguous_accepted` and the request-parser
+model of C21). Wherever it stands in the stream (`step` is what `no_bytes_cross_messages` applies at every message
+start): an RFC 9112 request-line of HTTP/1.1 or later (`method SP request-target SP HTTP/1.x CR LF`, lexical level),
+any number of well-formed field lines (token names, no whitespace before the colon, optional whitespace around the value,
+CR LF or LF line ends, any other fields in any order), the empty line `CR LF`, `n` body bytes, then anything: with exactly
+one Content-Length field denoting `n`, no Transfer-Encoding, no Expect, a plain method (not CONNECT / OPTIONS / TRACE /
+PRI), an http URL and a head below `request_header_max_size`, the client side hands on a message with exactly the body
+`body`, the method and target of the request line, and the next message starts at `extra`. -/
+theorem strict_rfc9112_message_delimited_exactly (cfg : Smuggle.Cfg) (url : Bytes → Bytes → Option UrlView)
+    (hrel : cfg.h1.relaxed = false) (line : Bytes) (F : Http1.Grammar.Fields) (fs : List FieldSyn) (body extra : Bytes) (u : UrlView)
+    (hline : C22.Rfc9112Line (line ++ [10]) F) (hv : F.vmaj = 1) (hvm : F.vmin ≥ 1)
+    (hw : ∀ x ∈ fs, WF ⟨false, .request, false⟩ x)
+    (hte : hasTe (fs.map entryOf) = false)
+    (hexp : ∀ x ∈ fs, ((entryOf x).id == idExpect) = false)
+    (hcl : ∃ v, clValues (fs.map entryOf) = [v] ∧ decimalValue (strip v) = some body.length ∧ v.contains 44 = false)
+    (hmeth : plainMethod F.method) (hurl : url F.method F.uri = some u) (hproto : u.proto = protoHTTP)
+    (hlim : line.length < cfg.h1.limit)
+    (hsize : F.method.length + F.uri.length + 12 + ((fs.flatMap FieldSyn.wire).length + 2) < cfg.h1.limit) :
+    ∃ d, step cfg url (line ++ 10 :: (fs.flatMap FieldSyn.wire ++ [13, 10] ++ (body ++ extra))) = .msg (body ++ extra) extra d ∧
+      d.body = body ∧ d.method = F.method ∧ d.uri = F.uri := by
+  obtain ⟨hne, hnolf⟩ := rfc9112Line_shape line F hline
+  have hpl := C22.strict_rfc9112_accepted cfg.h1.limit line F hline (by omega)
+  rw [parseLine_relaxed_only { relaxed := false, limit := cfg.h1.limit } cfg.h1 (by rw [hrel]) line] at hpl
+  exact strict_content_length_message cfg url hrel line _ fs body extra u hne hnolf hpl hv hvm hw hte hexp hcl hmeth hurl hproto hlim hsize
+
 /-! ### the three regions where the property statement is false of the code (known findings), and their repaired variants -/
 
 /-- every target is an acceptable http URL (the counterexamples do not depend on `AnyP::Uri::parse`) -/
@@ -325,6 +353,19 @@ example : ((delimit (unrepaired false) anyUrl
      [71, 69, 84, 32, 104, 116, 116, 112, 58, 47, 47, 104, 47, 32, 72, 84, 84, 80, 47, 49, 46, 49, 13, 10, 13, 10])).1.map
       fun m => (m.start, m.headEnd, m.stop, m.d.kind, m.d.body)) =
     [(0, 46, 49, .cl, [97, 98, 99]), (49, 104, 121, .ch, [97, 98, 99]), (121, 147, 147, .none, [])] := by decide +kernel
+
+/-- the hypotheses of `strict_rfc9112_message_delimited_exactly` are satisfiable: `POST http://h/ HTTP/1.1 CR LF` is an RFC 9112
+request-line, `Content-Length: 3 CR LF` a well-formed field line whose value denotes 3 -/
+example : C22.Rfc9112Line ([80, 79, 83, 84, 32, 104, 116, 116, 112, 58, 47, 47, 104, 47, 32, 72, 84, 84, 80, 47, 49, 46, 49, 13] ++ [10])
+    { method := [80, 79, 83, 84], uri := [104, 116, 116, 112, 58, 47, 47, 104, 47], vmaj := 1, vmin := 1 } :=
+  ⟨[80, 79, 83, 84], [104, 116, 116, 112, 58, 47, 47, 104, 47], 49, 49, by decide, ⟨by decide, by decide, by decide⟩,
+    ⟨by decide, by decide, by decide⟩, by decide, by decide, by decide⟩
+
+example : WF ⟨false, .request, false⟩ ⟨[67, 111, 110, 116, 101, 110, 116, 45, 76, 101, 110, 103, 116, 104], [], [32], [51], [], true⟩ :=
+  ⟨by decide, by decide +kernel, by decide, by decide, Or.inl rfl, by decide, by decide, by decide, by decide, by decide, by decide⟩
+
+example : clValues ([⟨[67, 111, 110, 116, 101, 110, 116, 45, 76, 101, 110, 103, 116, 104], [], [32], [51], [], true⟩].map entryOf) = [[51]] ∧
+    decimalValue (strip [51]) = some 3 := by constructor <;> decide +kernel
 
 /-- conflicting Content-Length values: an error reply, and the bytes after it are not read -/
 example : delimit (unrepaired true) anyUrl
